@@ -786,12 +786,21 @@ class Hugr(Mapping[Node, NodeData], Generic[OpVarCov]):
             )
             assert n.idx == idx, "Nodes should be added contiguously"
 
+        def get_offset(node: Node, offset: int | None, direction: Direction) -> int:
+            # Inverse of `_constrain_offset`: an edge without offset, or at the
+            # port after the value and static ports, is a state order edge.
+            order_offset = hugr._order_port_offset(node, direction)
+            if order_offset is None:
+                # no order port: the only non-dataflow port is port 0
+                return 0 if offset is None else offset
+            return -1 if offset is None or offset == order_offset else offset
+
         for (src_node, src_offset), (dst_node, dst_offset) in serial.edges:
-            if src_offset is None or dst_offset is None:
-                continue
+            src = Node(src_node, _metadata=get_meta(src_node))
+            dst = Node(dst_node, _metadata=get_meta(dst_node))
             hugr.add_link(
-                Node(src_node, _metadata=get_meta(src_node)).out(src_offset),
-                Node(dst_node, _metadata=get_meta(dst_node)).inp(dst_offset),
+                src.out(get_offset(src, src_offset, Direction.OUTGOING)),
+                dst.inp(get_offset(dst, dst_offset, Direction.INCOMING)),
             )
 
         return hugr
